@@ -11,3 +11,5 @@ pub mod c03;
 pub mod c17;
 pub mod c16;
 pub mod c19;
+pub mod c02;
+pub mod c18;
